@@ -356,6 +356,49 @@ let dispatch mode f =
            | Crash _ -> "PANIC")
         | _ -> failwith "files")
      | _ -> failwith "lex")
+  | "mlex", (arch :: data :: rest) ->
+    (* the lexer model on the decoded characters of a file; rest: [alnum code points], [whitespace code points]
+       (non-ASCII character classes are the implementation's: an oracle of the model) *)
+    let set_of = function
+      | s :: _ when s <> "" -> List.map (fun x -> int_of_string ("0x" ^ x)) (split ',' s)
+      | _ -> [] in
+    let alnums = set_of rest in
+    let wss = set_of (match rest with _ :: r -> r | [] -> []) in
+    let (chars, e) = utf8_decode (unhex data) in
+    if e <> EndOk then "UTF8" else begin
+      let (ops_n, regs_n, flags_n) = List.assoc arch (Lazy.force tabs) in
+      let (optab, regtab, flagtab) = (match arch with
+          | "z80" -> (z80_op_table, z80_reg_table, z80_flag_table)
+          | "sm83" -> (sm83_op_table, sm83_reg_table, sm83_flag_table)
+          | _ -> (mos_op_table, mos_reg_table, [])) in
+      let items = lex_all dir_table optab regtab flagtab
+          (fun c -> List.mem (int_of_n c) alnums) (fun c -> List.mem (int_of_n c) wss) chars in
+      let rev tab id = fst (List.find (fun (_, i) -> i = id) tab) in
+      let dirname d = string_of_bytes (fst (List.find (fun (_, i) -> directive_of_id i = Some d) dir_names)) in
+      let symname = function
+        | SyTilde -> "~" | SyBang -> "!" | SyMod -> "%" | SyCaret -> "^" | SyAmp -> "&" | SyAmpAmp -> "&&"
+        | SyStar -> "*" | SyHash -> "#" | SyLParen -> "(" | SyRParen -> ")" | SyLBrace -> "{" | SyRBrace -> "}"
+        | SyMinus -> "-" | SyEqEq -> "==" | SyNe -> "!=" | SyPlus -> "+" | SyPipe -> "|" | SyPipePipe -> "||"
+        | SyColon -> ":" | SyComma -> "," | SyLt -> "<" | SyGt -> ">" | SyLe -> "<=" | SyGe -> ">="
+        | SyShl -> "<<" | SyShr -> ">>" | SyShlL -> "<<<" | SyShrL -> ">>>" | SyDiv -> "/" | SyBackslash -> "\\"
+        | SyQuestion -> "?" in
+      let at l = Printf.sprintf "@%d:%d" (int_of_n l.line) (int_of_n l.col) in
+      let show = function
+        | ITok (t, l) ->
+          (match t with
+           | TNewline -> "N" | TComment -> "C"
+           | TString s -> "S" ^ hex_of_bytes s
+           | TNumber v -> "#" ^ string_of_int (int_of_z v)
+           | TOp i -> "O" ^ rev ops_n i | TReg i -> "R" ^ rev regs_n i | TFlag i -> "F" ^ rev flags_n i
+           | TDir d -> "D" ^ dirname d
+           | TSym y -> "Y" ^ symname y
+           | TLabel (k, s) -> "L" ^ (match k with LkGlobal -> "g" | LkLocal -> "l" | LkDirect -> "d") ^ hex_of_bytes s) ^ at l
+        | IErr (e, l) ->
+          "E" ^ (match e with
+              | EUnexpectedLineBreak -> "0" | EBadEscape -> "1" | EBadChar -> "2" | EBadBin -> "3" | EBadDec -> "4"
+              | EBadHex -> "5" | EUnrecognized -> "6" | EUnknownDirective -> "7" | EMalformedLabel -> "8") ^ at l in
+      String.concat " " (List.map show items)
+    end
   | _ -> "BADMODE"
 
 let () =
